@@ -151,15 +151,23 @@ func (c *Check) expandHandlerDecisions(u *feeUnits) {
 				}
 				guards := map[string]bool{}
 				kinds := map[string]bool{}
+				credits := false
 				for _, e := range c.P.SummaryOf(g).Effs {
 					if !role(e) {
 						continue
 					}
 					guards[strings.Join(e.Guards.Sorted(), " & ")] = true
 					kinds[e.Kind+e.Op+e.Family] = true
+					if isEscrowCredit(e) {
+						credits = true
+					}
 				}
 				// several kinds of state change under different conditions: the callee takes a decision
 				if len(guards) >= 3 && len(kinds) >= 3 {
+					force[g] = true
+				}
+				// the charge of a batch together with what is done when it fails
+				if credits && len(guards) >= 2 && len(kinds) >= 2 {
 					force[g] = true
 				}
 			}
@@ -225,6 +233,7 @@ type nbPath struct {
 	expiryQueued, running, superMode, notSuper    bool
 	enough, notEnough, filterErr                  bool
 	issueEv, creditEv                             *Event
+	opened                                        int // stores of the context with its batch counter advanced
 }
 
 func (c *Check) analyseNB(u *feeUnits) []*nbPath {
@@ -236,6 +245,8 @@ func (c *Check) analyseNB(u *feeUnits) []*nbPath {
 		}
 		n := &nbPath{pa: pa}
 		af := c.closeFacts(pa.AllFacts())
+		skipEv := false
+		nOpened := 0
 		for _, ev := range pa.Events {
 			if ev.Kind != EvCall {
 				continue
@@ -277,10 +288,16 @@ func (c *Check) analyseNB(u *feeUnits) []*nbPath {
 			if hasSet09 {
 				n.expiryQueued = true
 			}
-			if hasSetCtxBatch && hasSet09 && !hasSet13 {
-				n.skip = true
+			// a batch opened without requests; its expiry may be queued by the same call or later on the path
+			if hasSetCtxBatch && !hasSet13 {
+				skipEv = true
+			}
+			if hasSetCtxBatch {
+				nOpened++
 			}
 		}
+		n.skip = skipEv && n.expiryQueued && !n.issue
+		n.opened = nOpened
 		for _, fa := range af {
 			t := fa.T
 			switch {
@@ -294,6 +311,24 @@ func (c *Check) analyseNB(u *feeUnits) []*nbPath {
 				}
 			case t.Op == "ok" && u.FL != nil && t.A[0].Op == u.FL.Name && fa.Neg:
 				n.filterErr = true
+			}
+		}
+		// the mode fixed by a combination of conditions (charged under "enough providers and not super", issued
+		// after the uncharged branch with enough providers)
+		if !n.superMode && !n.notSuper {
+			seen := map[string]bool{}
+			for _, fa := range af {
+				fa.T.Walk(func(t *Term) bool {
+					if strings.HasSuffix(t.Op, ".RequestContext.SuperMode") && !seen[t.String()] {
+						seen[t.String()] = true
+						if af.Holds(t, true) {
+							n.superMode = true
+						} else if af.Holds(t, false) {
+							n.notSuper = true
+						}
+					}
+					return true
+				})
 			}
 		}
 		out = append(out, n)
@@ -364,6 +399,9 @@ func (c *Check) newBatchRules(prefix string, want map[string]bool) {
 			if n.creditEv != nil || n.issue {
 				add("skip-with-charge", "a skipped batch charges or issues", n.pa)
 			}
+		}
+		if n.opened > 1 {
+			add("skip-with-charge", "two batches are opened on one path (one skipped, one issued)", n.pa)
 		}
 		if n.running && !n.filterErr && !n.issue && !n.skip && !n.pause {
 			add("running-no-successor", "a RUNNING context leaves the handler with neither an expiry queued nor a pause", n.pa)
